@@ -51,6 +51,11 @@ def parseROp (s : String) : Option ROp :=
     | some [d] => some (.rbs d)
     | _ => none
   | ["wt", ws] => (parseWScript ws).map ROp.wt
+  | ["rr"] => some .rr
+  | ["ur"] => some .ur
+  | ["rS", hx] => match bytesOfHex hx with     -- ReadString = ReadBytes + string conversion
+    | some [d] => some (.rbs d)
+    | _ => none
   | _ => none
 
 def parseWOp (s : String) : Option WOp :=
@@ -62,6 +67,7 @@ def parseWOp (s : String) : Option WOp :=
     | _ => none
   | ["fl"] => some .fl
   | ["rf", sc] => (parseScript sc).map WOp.rf
+  | ["wr", r] => r.toNat?.map WOp.wr
   | _ => none
 
 def kv (key s : String) : Option String :=
@@ -91,15 +97,30 @@ def runROp (b : Reader) : ROp → Reader × String
     let (b', n, e, o) := b.writeTo ws
     (b', toString n ++ "." ++ toString e ++ "." ++ hexField o)
   | .rbs dl => let (b', d, e) := b.readBytes dl; (b', hexField d ++ "." ++ toString e)
+  | .rr => let (b', r, sz, e) := b.readRune; (b', toString r ++ "." ++ toString sz ++ "." ++ toString e)
+  | .ur => let (b', e) := b.unreadRune; (b', toString e)
 
-def runROps (total0 : Nat) : Reader → List ROp → List String → List String
+/-- driver-level op: a model op, or `rst:<script>` = `Reset(newSource)` -/
+inductive DROp | op (o : ROp) | rst (src : Script)
+
+def parseDROp (s : String) : Option DROp :=
+  match s.splitOn ":" with
+  | ["rst", sc] => (parseScript sc).map DROp.rst
+  | _ => (parseROp s).map DROp.op
+
+def runROps (total0 : Nat) : Reader → List DROp → List String → List String
   | _, [], acc => acc.reverse
-  | b, op :: ops, acc =>
+  | b, .op op :: ops, acc =>
     let (b', s) := runROp b op
     runROps total0 b' ops ((s ++ rstate total0 b') :: acc)
+  | b, .rst src :: ops, acc =>
+    let b' := b.reset src
+    let t0 := (srcBytes src).length
+    runROps t0 b' ops (("rst" ++ rstate t0 b') :: acc)
 
 def wstate (b : Writer) : String :=
-  "|t" ++ toString b.total ++ "|b" ++ toString b.buf.length ++ "|o" ++ toString b.out.length
+  "|t" ++ toString b.total ++ "|b" ++ toString b.buf.length ++ "|o" ++ toString b.out.length ++
+  "|a" ++ toString b.available
 
 def runWOp (b : Writer) : WOp → Writer × String
   | .w p => let (b', n, e) := Writer.write true b p; (b', toString n ++ "." ++ toString e)
@@ -107,12 +128,23 @@ def runWOp (b : Writer) : WOp → Writer × String
   | .wb c => let (b', e) := b.writeByte c; (b', toString e)
   | .fl => let (b', e) := b.flush; (b', toString e)
   | .rf src => let (b', n, e) := b.readFrom src; (b', toString n ++ "." ++ toString e)
+  | .wr r => let (b', n, e) := b.writeRune r; (b', toString n ++ "." ++ toString e)
 
-def runWOps : Writer → List WOp → List String → Writer × List String
+inductive DWOp | op (o : WOp) | rst (ws : WScript)
+
+def parseDWOp (s : String) : Option DWOp :=
+  match s.splitOn ":" with
+  | ["rst", sc] => (parseWScript sc).map DWOp.rst
+  | _ => (parseWOp s).map DWOp.op
+
+def runWOps : Writer → List DWOp → List String → Writer × List String
   | b, [], acc => (b, acc.reverse)
-  | b, op :: ops, acc =>
+  | b, .op op :: ops, acc =>
     let (b', s) := runWOp b op
     runWOps b' ops ((s ++ wstate b') :: acc)
+  | b, .rst ws :: ops, acc =>
+    let b' := b.reset ws
+    runWOps b' ops (("rst" ++ wstate b') :: acc)
 
 /-! ### spec oracles on the implementation's result string -/
 
@@ -128,7 +160,7 @@ def splitRes (s : String) : String × List String :=
 def slice (l : Bytes) (a b : Nat) : Bytes := (l.drop a).take (b - a)
 
 def ropName : ROp → String
-  | .rd _ => "rd" | .rb => "rb" | .ub => "ub" | .pk _ => "pk" | .rs _ => "rs" | .rl => "rl" | .wt _ => "wt" | .rbs _ => "rB"
+  | .rd _ => "rd" | .rb => "rb" | .ub => "ub" | .pk _ => "pk" | .rs _ => "rs" | .rl => "rl" | .wt _ => "wt" | .rbs _ => "rB" | .rr => "rr" | .ur => "ur"
 
 def checkROp (S : Bytes) (p0 : Nat) (op : ROp) (res : String) : Option String × Nat :=
   let (r, st) := splitRes res
@@ -156,6 +188,15 @@ def checkROp (S : Bytes) (p0 : Nat) (op : ROp) (res : String) : Option String ×
             (got == d || (pf == "0" && (got == d ++ [10] || got == d ++ [13, 10])))
           | none => false
         | .wt _, [_, _, hx] => (bytesOfHex hx == some (slice S p0 p1)) && decide (p0 ≤ p1)
+        | .rr, [rs, szs, e] =>
+          match rs.toNat?, szs.toNat? with
+          | some r, some sz =>
+            if e == "0" then
+              decide (p1 = p0 + sz) && decide (1 ≤ sz) &&
+                (encodeRune r == slice S p0 p1 || (r == 0xFFFD && sz == 1))
+            else decide (p1 = p0) && sz == 0
+          | _, _ => false
+        | .ur, [e] => if e == "0" then decide (p1 < p0) && decide (p0 ≤ p1 + 4) else decide (p1 = p0) && e == "8"
         | _, _ => false
       if !dataOk then (some ("stream-" ++ ropName op), p1)
       else if t ≠ p1 then (some ("count-" ++ ropName op), p1)
@@ -163,21 +204,24 @@ def checkROp (S : Bytes) (p0 : Nat) (op : ROp) (res : String) : Option String ×
     | _, _ => (some "bad-token", p0)
   | _ => (some "bad-token", p0)
 
-def oracleR (S : Bytes) : Nat → List ROp → List String → Option String
-  | _, [], [] => none
-  | p0, op :: ops, r :: rs =>
+def oracleR : Bytes → Nat → List DROp → List String → Option String
+  | _, _, [], [] => none
+  | S, p0, .op op :: ops, r :: rs =>
     match checkROp S p0 op r with
     | (some c, _) => some c
     | (none, p1) => oracleR S p1 ops rs
-  | _, _, _ => some "token-count"
+  | _, _, .rst src :: ops, r :: rs =>
+    -- after Reset: nothing consumed, counter 0, new stream
+    if r.startsWith "rst|t0|p0|" then oracleR (srcBytes src) 0 ops rs else some "count-rst"
+  | _, _, _, _ => some "token-count"
 
 def wopName : WOp → String
-  | .w _ => "w" | .s _ => "s" | .wb _ => "wb" | .fl => "fl" | .rf _ => "rf"
+  | .w _ => "w" | .s _ => "s" | .wb _ => "wb" | .fl => "fl" | .rf _ => "rf" | .wr _ => "wr"
 
 def checkWOp (A : Bytes) (op : WOp) (res : String) : Option String × Bytes :=
   let (r, st) := splitRes res
   match st with
-  | [ts, bs, os] =>
+  | [ts, bs, os, _] =>
     match natAfter "t" ts, natAfter "b" bs, natAfter "o" os with
     | some t, some bf, some o =>
       let f := r.splitOn "."
@@ -187,6 +231,8 @@ def checkWOp (A : Bytes) (op : WOp) (res : String) : Option String × Bytes :=
         | .s p, [n, _] => n.toNat?.bind fun k => if k ≤ p.length then some (A ++ p.take k) else none
         | .wb c, [e] => some (if e == "0" then A ++ [c] else A)
         | .fl, [_] => some A
+        | .wr r, [n, _] => n.toNat?.bind fun k =>
+            if k ≤ (encodeRune r).length then some (A ++ (encodeRune r).take k) else none
         | .rf src, [n, _] => n.toNat?.bind fun k =>
             if k ≤ (srcBytes src).length then some (A ++ (srcBytes src).take k) else none
         | _, _ => none
@@ -200,12 +246,14 @@ def checkWOp (A : Bytes) (op : WOp) (res : String) : Option String × Bytes :=
     | _, _, _ => (some "bad-token", A)
   | _ => (some "bad-token", A)
 
-def oracleW : Bytes → List WOp → List String → Option String × Bytes
+def oracleW : Bytes → List DWOp → List String → Option String × Bytes
   | A, [], [] => (none, A)
-  | A, op :: ops, r :: rs =>
+  | A, .op op :: ops, r :: rs =>
     match checkWOp A op r with
     | (some c, A') => (some c, A')
     | (none, A') => oracleW A' ops rs
+  | A, .rst _ :: ops, r :: rs =>
+    if r.startsWith "rst|t0|b0|o0|" then oracleW [] ops rs else (some "count-rst", A)
   | A, _, _ => (some "token-count", A)
 
 def isPrefixB : Bytes → Bytes → Bool
@@ -217,7 +265,7 @@ def run (op impl : String) : Ans :=
   match op.splitOn ";" with
   | ["R", capS, srcS, opsS] =>
     match (kv "cap" capS).bind String.toNat?, (kv "src" srcS).bind parseScript,
-          (kv "ops" opsS).bind (fun s => (s.splitOn ",").mapM parseROp) with
+          (kv "ops" opsS).bind (fun s => (s.splitOn ",").mapM parseDROp) with
     | some cap, some src, some ops =>
       let S := srcBytes src
       let b := Reader.new cap src
@@ -227,12 +275,13 @@ def run (op impl : String) : Ans :=
         else match oracleR S 0 ops (impl.splitOn ",") with
           | none => "ok"
           | some c => "FAIL:" ++ c
-      let tags := (ops.map ropName).eraseDups ++ (if ops.length ≥ 3 then ["nt"] else []) ++ ["reader"]
+      let tags := (ops.map fun o => match o with | .op x => ropName x | .rst _ => "rst").eraseDups ++
+        (if ops.length ≥ 3 then ["nt"] else []) ++ ["reader"]
       { model := model, verdict := verdict, tags := tags }
     | _, _, _ => { model := "bad-op", verdict := "skip" }
   | ["W", capS, wsS, opsS] =>
     match (kv "cap" capS).bind String.toNat?, (kv "ws" wsS).bind parseWScript,
-          (kv "ops" opsS).bind (fun s => (s.splitOn ",").mapM parseWOp) with
+          (kv "ops" opsS).bind (fun s => (s.splitOn ",").mapM parseDWOp) with
     | some cap, some ws, some ops =>
       let b := Writer.new cap ws
       let (b', rs) := runWOps b ops []
@@ -248,7 +297,8 @@ def run (op impl : String) : Ans :=
               | some o => if isPrefixB o A then "ok" else "FAIL:stream-out"
               | none => "FAIL:bad-token"
           | _ => "FAIL:bad-token"
-      let tags := (ops.map wopName).eraseDups ++ (if ops.length ≥ 3 then ["nt"] else []) ++ ["writer"]
+      let tags := (ops.map fun o => match o with | .op x => wopName x | .rst _ => "rst").eraseDups ++
+        (if ops.length ≥ 3 then ["nt"] else []) ++ ["writer"]
       { model := model, verdict := verdict, tags := tags }
     | _, _, _ => { model := "bad-op", verdict := "skip" }
   | _ => { model := "bad-op", verdict := "skip" }
